@@ -89,7 +89,14 @@ impl DynGroup {
 
             trace!(entries_len = %entries.len());
 
-            let members = ValueSetRefer::from_iter(entries.iter().map(|e| e.get_uuid()));
+            // The dyngroup filter has no recycled/tombstone exclusion applied to it, so
+            // drop any masked entries here. They must never become (or stay) members.
+            let members = ValueSetRefer::from_iter(
+                entries
+                    .iter()
+                    .filter(|e| e.mask_recycled_ts().is_some())
+                    .map(|e| e.get_uuid()),
+            );
             trace!(?members);
 
             if let Some(uuid_iter) = members.as_ref().and_then(|a| a.as_ref_uuid_iter()) {
